@@ -94,7 +94,18 @@ pub fn history_programs() -> Vec<String> {
         "def g(p: Pair[i64, List[i64]]): i64 { p.case[i64, List[i64]] { Tup(a, b) => a + sum(b) } }\ndef main(n: i64): i64 { g(Tup(n, range(2))) }",
         "def main(n: i64): i64 { let a: i64 = if n == 1 { 3 } else { 4 }; let b: i64 = range(a).case[i64] { Nil => 0, Cons(h, t) => h }; a + b }",
     ];
-    bodies.iter().map(|b| format!("{PRELUDE_TYPES}{PRELUDE_DEFS}{b}\n")).collect()
+    let mut v: Vec<String> = bodies.iter().map(|b| format!("{PRELUDE_TYPES}{PRELUDE_DEFS}{b}\n")).collect();
+    // conflicting namesakes: self-contained programs that declare DIFFERENT things under the same
+    // type / constructor / destructor / definition names (anything remembered by name from an
+    // earlier compilation in the same process would be wrong for the later one)
+    let namesakes = [
+        "data Shape { Circle(r: i64), Square(s: i64) }\ndef area(s: Shape): i64 { s.case { Circle(r) => r * 3, Square(s) => s * s } }\ndef main(n: i64): i64 { area(Square(n)) + area(Circle(2)) }\n",
+        "data Shape { Square(s: i64), Circle(r: i64, q: i64) }\ndef area(s: Shape, k: i64): i64 { s.case { Square(s) => s * k, Circle(r, q) => r - q } }\ndef main(n: i64): i64 { area(Square(n), 5) + area(Circle(2, n), 1) }\n",
+        "codata Obj { get: i64, put(x: i64): i64 }\ndata List[A] { Nil, Cons(x: A, xs: List[A]) }\ndef helper(a: i64): i64 { a + 1 }\ndef mk(n: i64): Obj { new { get => helper(n), put(x) => x + n } }\ndef main(n: i64): i64 { let l: List[i64] = Cons(mk(n).get, Nil); l.case[i64] { Nil => mk(n).put(1), Cons(h, t) => h } }\n",
+        "codata Obj { put(x: i64, y: i64): i64, get: i64 }\ndata List[A] { Cons(x: A, xs: List[A]), Nil }\ndef helper(a: i64, b: i64): i64 { a * b }\ndef mk(n: i64): Obj { new { put(x, y) => helper(x, y) + n, get => n } }\ndef main(n: i64): i64 { let l: List[i64] = Cons(mk(n).put(2, 3), Nil); l.case[i64] { Cons(h, t) => h, Nil => mk(n).get } }\n",
+    ];
+    v.extend(namesakes.iter().map(|x| x.to_string()));
+    v
 }
 
 fn stage_hashes(dump: &[(String, String)]) -> Vec<(String, u64)> {
@@ -293,7 +304,7 @@ pub fn worker(ctx: &WorkerCtx) -> Report {
     if ctx.shard == 0 {
         environment_part(&mut rep);
     }
-    rep.sample(json!({"histories": "all sequences over 8 programs up to the tier's length", "seeds": seeds.len(), "stages": STAGES}));
+    rep.sample(json!({"histories": "all sequences over 12 programs (8 over a common prelude, 4 conflicting namesakes) up to the tier's length", "seeds": seeds.len(), "stages": STAGES}));
     rep
 }
 
